@@ -151,6 +151,18 @@ package redisemu
 //@ ensures internal [C02] set.reply: valid && cmdName != "setnx" && !get && !append && valueExists != VALUE_WRONG_TYPE && !flagHasOne(options, bitflags(SET_GET)) ==> ((output.data == rstrOK) == mutated) && (!mutated ==> output.data == nil)
 //@ ensures internal [C02] wrongtype: valid && valueExists == VALUE_WRONG_TYPE ==> output.data == wrongTypeError && hasError && !mutated
 //@ ensures internal [C02] bad.expiry: !valid ==> istype(output.data, respErrorString) && !mutated
+//@ ensures internal [C02] plain.stores: valid && valueExists != VALUE_WRONG_TYPE && !flagHasOne(options, SET_NOT_EXIST) && !flagHasOne(options, SET_EXISTS) ==> mutated
+
+// C02: APPEND always goes through the store write, whatever the value (an empty value creates a missing
+// key as an empty string); the reply is the new length or the type error
+//@ ghost gReachedStore bool
+//@ func fnAppend
+//@ prop C02
+//@ include thinhandler
+//@ ghostentry gReachedStore = false
+//@ ghostafter "result, hasError := setWorker(" : gReachedStore = true
+//@ ensures [C02] every.append.stores: gReachedStore
+//@ ensures internal [C02] reply: (hasError ==> output.data == result.data) && (!hasError ==> istype(output.data, respInt))
 
 // C02: INCR / DECR / INCRBY / DECRBY reply the new value, or an error that leaves the key alone
 //@ func keyAdd
